@@ -121,6 +121,12 @@ func (igi IndexGroupInfo) clone() IndexGroupInfo {
 		}
 	}
 
+	if igi.ClearInfo != nil {
+		ci := *igi.ClearInfo
+		ci.ClearPeers = append([]uint64(nil), igi.ClearInfo.ClearPeers...)
+		other.ClearInfo = &ci
+	}
+
 	return other
 }
 
